@@ -636,46 +636,65 @@ def r6(F, R):
     sel = [b for b in polls if b.impl["self_adt"] == "future::SelectWithBiasedFirst"]
     if len(yn) != 1 or len(ytr) != 1 or len(sel) != 1:
         raise Unverifiable(f"yield primitives: YieldNow={len(yn)} YieldThenReturn={len(ytr)} Select={len(sel)}")
+    # YieldNow::poll on its deep path table: rows (flag?, effects, result)
+    from . import deep as D
     b = yn[0]
-    pend = [(s, st) for s, st in b.assigns(lambda st: st["rv"]["k"] == "agg" and st["rv"].get("adt") == "std::task::Poll" and st["rv"]["variant"] == "Pending")]
-    ready = [(s, st) for s, st in b.assigns(lambda st: st["rv"]["k"] == "agg" and st["rv"].get("adt") == "std::task::Poll" and st["rv"]["variant"] == "Ready")]
-    wakes = [s for s, t in b.calls(lambda t: callee_is(t, r"Waker::wake(_by_ref)?$"))]
-    sets = [s for s, st in b.assigns(lambda st: place_fields(st["pl"]) and place_fields(st["pl"])[-1][0] == "future::YieldNow"
-                                     and st["rv"]["k"] == "use" and const_int(st["rv"]["op"]) == 1)]
-    R.check(len(pend) >= 1 and len(ready) >= 1, "yieldnow/both-results", b, "", "YieldNow::poll lacks a Pending or a Ready path")
-    for s, _ in pend:
-        R.check(any(b.dominates(w, s) for w in wakes), "yieldnow/pending-after-wake", s, "Pending is returned only after wake_by_ref",
-                "YieldNow returns Pending without waking the task first (lost wake-up: the run hangs)")
-        R.check(any(b.dominates(w, s) for w in sets), "yieldnow/pending-sets-flag", s, "Pending path sets the flag",
-                "YieldNow returns Pending without setting its flag (it would never become Ready)")
-    for s, _ in ready:
-        gs = A.guards_of(b, s)
-        flag_true = False
-        for g in gs:
-            d = g.cond_def()
-            if d and d[0] == "place" and place_fields(d[1]) and place_fields(d[1])[-1][0] == "future::YieldNow" and g.polarity() is True:
-                flag_true = True
-        R.check(flag_true, "yieldnow/ready-only-when-flag", s, "Ready only on the flag's true edge",
+    is_flag = lambda x: isinstance(x, tuple) and x[0] == "field" and x[2] == 0 and D.mentions(x, lambda y: y == ("arg", 1)) and \
+        not D.mentions(x, lambda y: y[0] in ("call", "await"))
+    def has_self(x):
+        return isinstance(x, tuple) and (x in (("arg", 1), ("L", 0, 1)) or any(has_self(y) for y in x))
+    is_flag_place = lambda pl: pl[0] == "field" and pl[2] == 0 and has_self(pl[1])
+    rows = D.Deep(F, b, max_paths=50).run()
+    if not rows or any(p.cut for p in rows):
+        raise Unverifiable("YieldNow::poll: empty path table or a loop")
+    def res(p):
+        return "Pending" if D.is_variant(p.ret, "std::task::Poll", "Pending") else "Ready" if D.is_variant(p.ret, "std::task::Poll", "Ready") else "?"
+    def flag_of(p):
+        v = [out for a_, out in p.conds if is_flag(a_)]
+        return v[0] if v else None
+    pend = [p for p in rows if res(p) == "Pending"]
+    ready = [p for p in rows if res(p) == "Ready"]
+    R.check(len(pend) >= 1 and len(ready) >= 1 and len(pend) + len(ready) == len(rows), "yieldnow/both-results", b, "", "YieldNow::poll lacks a Pending or a Ready path")
+    for p in pend:
+        R.check(any(e[0] == "call" and re.search(r"Waker::wake(_by_ref)?$", e[1]) for e in p.effects), "yieldnow/pending-after-wake", b,
+                "Pending is returned only after wake_by_ref", "YieldNow returns Pending without waking the task first (lost wake-up: the run hangs)")
+        R.check(any(e[0] == "write" and is_flag_place(e[1]) and e[2] == ("const", True) for e in p.effects), "yieldnow/pending-sets-flag", b,
+                "Pending path sets the flag", "YieldNow returns Pending without setting its flag (it would never become Ready)")
+    for p in ready:
+        R.check(flag_of(p) is True, "yieldnow/ready-only-when-flag", b, "Ready only on the flag's true edge",
                 "YieldNow returns Ready although its flag is not set (then_yield would no longer yield)")
+    for p in rows:
+        if flag_of(p) is True:
+            R.check(res(p) == "Ready", "yieldnow/ready-when-flag", b, "a yielded YieldNow completes", "YieldNow stays Pending after it has yielded (the run hangs)")
     # constructor starts with false
     ctors = roles.builders_of(F, "future::YieldNow", "YieldNow")
     vals = [const_int(st["rv"]["ops"][0]) for _, _, st in ctors]
     R.check(bool(ctors) and all(v == 0 for v in vals), "yieldnow/starts-unyielded", ctors[0][0] if ctors else None,
             "every YieldNow is created with flag=false", f"a YieldNow is created with flag values {vals}")
     # YieldThenReturn polls the yield first and returns Pending when it pends
+    # on YieldThenReturn::poll's path table
     b = ytr[0]
-    pu = [(s, t) for s, t in b.calls(lambda t: callee_is(t, r"poll(_unpin)?$") and "YieldNow" in (op_fn(t["func"]) or {}).get("full", ""))]
-    takes = [s for s, t in b.calls(lambda t: callee_is(t, r"Option::<.*>::take$"))]
-    R.check(len(pu) == 1, "ytr/polls-yield", b, "", f"YieldThenReturn::poll polls its YieldNow {len(pu)} times")
-    if len(pu) == 1:
-        s_pu, t_pu = pu[0]
-        for tk in takes:
-            R.check(b.dominates(s_pu, tk), "ytr/yield-before-value", tk, "value is taken only after the yield was polled",
+    rows = D.Deep(F, b, max_paths=100).run()
+    if not rows or any(p.cut for p in rows):
+        raise Unverifiable("YieldThenReturn::poll: empty path table or a loop")
+    is_poll = lambda e: e[0] == "call" and re.search(r"::poll(_unpin)?$", e[1]) is not None
+    for p in rows:
+        polls_ = [i for i, e in enumerate(p.effects) if is_poll(e)]
+        R.check(len(polls_) == 1, "ytr/polls-yield", b, "", f"YieldThenReturn::poll polls its YieldNow {len(polls_)} times on some path")
+        if len(polls_) != 1:
+            continue
+        pc = p.effects[polls_[0]]
+        pterm = ("call", pc[1], pc[2], pc[4])
+        st_ = [out for a_, out in p.conds if a_ == ("discr", pterm)]
+        touched = [i for i, e in enumerate(p.effects) if e[0] == "write" or (e[0] == "call" and re.search(r"Option::<.*>::take$", e[1]))]
+        for i in touched:
+            R.check(i > polls_[0], "ytr/yield-before-value", b, "value is taken only after the yield was polled",
                     "YieldThenReturn takes its value before polling the yield")
-            vc = A.vc_at(b, tk)
-            k = f"_{t_pu['dest']['l']}"
-            R.check(vc.get(k) == frozenset(["Ready"]), "ytr/value-only-when-yield-ready", tk, "value is returned only when the yield is Ready",
-                    f"YieldThenReturn can return its value while the yield is {sorted(vc.get(k, ['?']))}")
+        if touched or res(p) == "Ready":
+            R.check(st_ == ["Ready"], "ytr/value-only-when-yield-ready", b, "value is returned only when the yield is Ready",
+                    f"YieldThenReturn can return its value while the yield is {st_ or ['?']}")
+        if st_ == ["Pending"]:
+            R.check(res(p) == "Pending", "ytr/pending-when-yield-pending", b, "", "YieldThenReturn completes while its yield is still pending")
     # then_yield = then(YieldThenReturn::new)
     ty = [b2 for b2 in F.crate_bodies() if b2.impl and b2.impl.get("provided") and b2.impl["trait"] == "future::FutureExt"]
     ok = False
